@@ -27,6 +27,7 @@ type Violation struct {
 	Detail   string   `json:"detail"`
 	Scenario string   `json:"scenario"`
 	Trace    []string `json:"trace"` // event labels from genesis (replayable)
+	NDev     int      `json:"deviations"`
 	Replay   string   `json:"replay,omitempty"`
 }
 
@@ -133,12 +134,23 @@ func (rc *RunCtx) Violate(v Violation) {
 	rc.mu.Lock()
 	defer rc.mu.Unlock()
 	rc.res.Counters["violations_raw"]++
-	for _, o := range rc.res.Violations {
+	for i, o := range rc.res.Violations {
 		if o.Sig == v.Sig {
+			if simpler(v, o) {
+				rc.res.Violations[i] = v
+			}
 			return
 		}
 	}
 	rc.res.Violations = append(rc.res.Violations, v)
+}
+
+// simpler orders counterexamples: fewer deviations first, then shorter traces.
+func simpler(a, b Violation) bool {
+	if a.NDev != b.NDev {
+		return a.NDev < b.NDev
+	}
+	return len(a.Trace) < len(b.Trace)
 }
 
 // CheckFunc is a property check.
@@ -352,9 +364,12 @@ func Main(args []string) int {
 		}
 		for _, v := range r.Violations {
 			dup := false
-			for _, o := range merged.Violations {
+			for i, o := range merged.Violations {
 				if o.Sig == v.Sig {
 					dup = true
+					if simpler(v, o) {
+						merged.Violations[i] = v
+					}
 				}
 			}
 			if !dup {
